@@ -110,6 +110,11 @@ def check_float(ctx, p):
         if len(back) != 4 or ref_f32(q) is not None:
             ctx.violation({'fn': 'float_to_bytes', 'clause': 'NaN encodes to a NaN pattern'},
                           f'{pat.hex()} -> {back.hex()}')
+        elif q not in (p, p | 0x00400000):
+            # sign and payload survive; a signalling NaN may come back quiet (the float32 <-> double conversion of the
+            # host sets the quiet bit), which is the only tolerated difference
+            ctx.violation({'fn': 'float_to_bytes', 'clause': 'bit-exact round trip', 'class': 'NaN'},
+                          f'{pat.hex()} -> NaN -> {back.hex()}')
         ctx.outcome('f:nan')
         return
     if type(x) is not float or not same_float(x, want):
@@ -467,6 +472,6 @@ def meta(tier, seed):
                 'max_item_size': MAX_ITEM},
         assumptions=['the "random integers up to 8192 bits" clause is replaced by complete structured '
                      'families (two-bit, run-of-ones, binade-edge top words at every byte length)',
-                     'NaN payload bits are not compared',
+                     'NaN: sign and payload must round-trip; only the quiet bit of a signalling NaN may change (host float32<->double conversion)',
                      'DIV/MOD on mixed-sign operands: floor or truncation both accepted'],
     )
